@@ -723,3 +723,26 @@ Theorem C11_sweep_rejected : forall (s : list (tkind * string)) (e : loc),
   ~ (exists t, ref_parses gen_grammar o_any dec ff0 (locate 1 s) t).
 Proof. exact check_seq_rejected. Qed.
 Print Assumptions C11_sweep_rejected.
+
+(* ------------------------------------------------------------------------------------------------------------------
+   9. The model parser IS the source: parser/parser.go is read statement by statement by translator/gen_parser.go into
+      gen/GenParser.v on every run; interpreting those regenerated functions gives Parser.parse on every token list. *)
+Require Import X.Parse.ParseRules X.gen.GenParser X.Bridge.BrParser.
+
+Theorem C11_model_parser_is_source : forall (g : grammar) (o : oracles) (ts : list token),
+  gen_parse parser_program g o ts = Some (parse g o ts).
+Proof. exact gen_parse_is_parse. Qed.
+Print Assumptions C11_model_parser_is_source.
+
+Theorem C11_model_parse_expr_is_source : forall (g : grammar) (o : oracles) (n : nat) (prec : Z) (d : nat) (ts : list token),
+  gen_parse_expr parser_program g o n prec d ts = lift_e d (parse_expr g o n prec d ts).
+Proof. exact gen_parse_expr_is_parse_expr. Qed.
+Print Assumptions C11_model_parse_expr_is_source.
+
+Theorem C11_parser_source_recognised : recognised parser_program = true.
+Proof. exact genparser_recognised. Qed.
+Print Assumptions C11_parser_source_recognised.
+
+Example C11_model_parser_is_source_nonvacuous :
+  gen_parse parser_program gen_grammar C11.ex_oracles (print_min gen_grammar dec ex_fmt_float ex_tree) = Some (ROk ex_tree).
+Proof. rewrite gen_parse_is_parse. rewrite (proj2 C11_example_roundtrip). reflexivity. Qed.
